@@ -109,6 +109,33 @@ AddUnionOrd(G, H, ordN, ordE) ==
 
 AddUnion(G, H) == AddUnionOrd(G, H, SortedSeqOf(SharedNodes(G, H)), SortedSeqOf(SharedEdges(G, H)))
 
+(* OpGraph._insert_opchain(nid_start, nid_end, oids, coeffs, qnums, direction): an alternating sequence of fresh edges  *)
+(* and fresh nodes (ids max+1, max+2, ...; edge ids start at max(default 0)+1) from nid_start to the EXISTING node      *)
+(* nid_end; direction 1: edges point start -> end, direction 0: edges point towards the start node.                    *)
+RECURSIVE InsertChainFrom(_, _, _, _, _, _, _, _)
+InsertChainFrom(G, cur, b, oids, coeffs, qs, dir, k) ==
+    LET n == Len(oids)
+        e == MaxOf(EdgeIds(G) \cup {0}, 0) + 1
+        mk(g, eid, x, y, ops) == [g EXCEPT !.edges = [d \in EdgeIds(g) \cup {eid} |-> IF d = eid THEN [src |-> x, dst |-> y, ops |-> ops] ELSE g.edges[d]],
+                                           !.nodes = [m \in NodeIds(g) |->
+                                                        LET r1 == IF m = x THEN [g.nodes[m] EXCEPT !.eout = @ \cup {eid}] ELSE g.nodes[m]
+                                                        IN IF m = y THEN [r1 EXCEPT !.ein = @ \cup {eid}] ELSE r1]]
+    IN IF k = n
+       THEN IF dir = 1 THEN mk(G, e, cur, b, {<<oids[k], coeffs[k]>>}) ELSE mk(G, e, b, cur, {<<oids[k], coeffs[k]>>})
+       ELSE LET m == Max(NodeIds(G)) + 1
+                G1 == [G EXCEPT !.nodes = [x \in NodeIds(G) \cup {m} |-> IF x = m THEN [q |-> qs[k], ein |-> {}, eout |-> {}] ELSE G.nodes[x]]]
+                G2 == IF dir = 1 THEN mk(G1, e, cur, m, {<<oids[k], coeffs[k]>>}) ELSE mk(G1, e, m, cur, {<<oids[k], coeffs[k]>>})
+            IN InsertChainFrom(G2, m, b, oids, coeffs, qs, dir, k + 1)
+InsertChain(G, a, b, oids, coeffs, qs, dir) == InsertChainFrom(G, a, b, oids, coeffs, qs, dir, 1)
+(* the polynomial of the inserted chain (in graph direction 1 reading order) *)
+ChainWordPoly(oids, coeffs, dir) ==
+    LET n == Len(oids)
+        w == IF dir = 1 THEN oids ELSE [i \in 1..n |-> oids[n + 1 - i]]
+        c == LET F[k \in 0..n] == IF k = 0 THEN 1 ELSE F[k-1] * coeffs[k] IN F[n]
+    IN PolyTerm(w, c)
+PathsToNode(G, n) == DenBack(G, n, Cardinality(NodeIds(G)) + 1)
+PathsFromNode(G, n) == DenFrom(G, n, Cardinality(NodeIds(G)) + 1)
+
 (* precondition of add: both graphs consistent, same length, distinct terminals, charges of the terminals agree *)
 CanAdd(G, H) == /\ ConsistentG(G) /\ ConsistentG(H)
                 /\ GraphLength(G) = GraphLength(H)
